@@ -29,9 +29,33 @@ def strip_base(t):
     return t
 
 
+def _field_stores(P, relfile):
+    """{(record, field): [(fn, node)]} for every store (=, op=, ++, --) to a struct member in the file."""
+    out = {}
+    for fn in P.funcs_in(relfile):
+        for n in fn.body.walk():
+            tgt = None
+            if is_assign(n):
+                tgt = n.c[0].strip()
+            elif n.k == "UnaryOperator" and n.op in ("++", "--"):
+                tgt = n.c[0].strip()
+            if tgt is not None and tgt.k == "MemberExpr":
+                out.setdefault((tgt.get("rec"), tgt.name), []).append((fn, n))
+    return out
+
+
 def file_invariants(P, relfile):
-    """{base-stripped canonical expr: smallest K} from guards `E > K` / `E >= K` with an error exit."""
+    """{base-stripped canonical expr over struct members: smallest K} from validation guards
+    `E > K` / `E >= K` with an error exit.
+
+    Such a guard is an invariant for *other* functions only when the members it mentions are
+    stable: every store to them in the file sits in the validating function, before the guard
+    (parse, store, validate - the header idiom). A member that is also incremented or assigned
+    elsewhere (a stack depth, a position) is not covered by this rule; those are bounded by
+    field_upper_bounds or by a dominating guard in the using function. Guards over parameters or
+    locals say nothing about another function and are ignored."""
     inv = {}
+    stores = _field_stores(P, relfile)
     for fn in P.funcs_in(relfile):
         cz = Canon(fn)
         for n in fn.body.walk():
@@ -56,6 +80,19 @@ def file_invariants(P, relfile):
                 if c.k != "BinaryOperator" or c.op not in (">", ">="):
                     continue
                 if c.c[1].cv is None:
+                    continue
+                members = [(m.get("rec"), m.name) for m in c.c[0].walk() if m.k == "MemberExpr"]
+                if not members:
+                    continue
+                if any(x.k in ("DeclRefExpr",) and x.get("dk") in ("local", "param") and "*" not in (x.t or "")
+                       for x in c.c[0].walk()):
+                    continue    # mixes in a local/parameter value: not a property of the object
+                stable = True
+                for key in members:
+                    for sfn, sn in stores.get(key, []):
+                        if sfn.key() != fn.key() or sn.i > n.i:
+                            stable = False
+                if not stable:
                     continue
                 K = c.c[1].cv if c.op == ">" else c.c[1].cv - 1     # E <= K afterwards
                 e = strip_base(cz(c.c[0]))
